@@ -13,10 +13,6 @@ The harness evaluates the same scanner `scan` on the sequences real subscribers 
 -/
 namespace Remoc.Bcast
 
-theorem scan_value_cons {e i : Nat} {lp : Bool} {rest : List Msg} {r : Nat × Bool}
-    (h : scan (e, lp) (.value i :: rest) = some r) : scan (i + 1, false) rest = some r := by
-  cases lp <;> simp only [scan] at h <;> split at h <;> simp_all
-
 /-! ### what acceptance by the scanner means (bridge for the predicate evaluated on real runs) -/
 
 /-- accepted ⇒ values strictly increasing -/
